@@ -22,7 +22,9 @@
 (***************************************************************************)
 EXTENDS Naturals, Integers, Sequences, FiniteSets, TLC, Json, SourceProps
 
-CONSTANTS MAXLEN, MAXREP, CRLF
+CONSTANTS MAXLEN,   \* maximal size of a file without "\r\n"
+          MAXREP,   \* replica counts 1..MAXREP
+          CRLFLEN   \* maximal size of a file containing "\r\n" (0: none)
 
 X == 120
 
@@ -70,9 +72,11 @@ CsvOut(b, n, hasHdr) == [g \in 1..n |-> CsvRecords(b, n, g - 1, hasHdr)]
 ---------------------------------------------------------------------------
 Init == file = <<>> /\ phase = "build" /\ hdr = FALSE /\ out = <<>>
 
-AppendX == phase = "build" /\ Len(file) < MAXLEN /\ file' = Append(file, X) /\ UNCHANGED <<phase, hdr, out>>
-AppendLF == phase = "build" /\ Len(file) < MAXLEN /\ file' = Append(file, NL) /\ UNCHANGED <<phase, hdr, out>>
-AppendCRLF == CRLF /\ phase = "build" /\ Len(file) + 2 <= MAXLEN /\ file' = file \o <<CR, NL>>
+HasCR(f) == \E i \in DOMAIN f : f[i] = CR
+Room(f) == IF HasCR(f) THEN Len(f) < CRLFLEN ELSE Len(f) < MAXLEN
+AppendX == phase = "build" /\ Room(file) /\ file' = Append(file, X) /\ UNCHANGED <<phase, hdr, out>>
+AppendLF == phase = "build" /\ Room(file) /\ file' = Append(file, NL) /\ UNCHANGED <<phase, hdr, out>>
+AppendCRLF == phase = "build" /\ Len(file) + 2 <= CRLFLEN /\ file' = file \o <<CR, NL>>
               /\ UNCHANGED <<phase, hdr, out>>
 SplitWith(h) == /\ phase = "build"
                 /\ phase' = "done"
